@@ -59,6 +59,21 @@ def ogg_inputs(d):
                 yield "ogg-field@%d+%d" % (o, fld), put(d, o + fld, w, v, False)
 
 
+def ogg_empty_foreign_pages(d):
+    """a page with zero segments (legal Ogg) belonging to ANOTHER logical stream, inserted at each of the first positions"""
+    try:
+        pages = W.ogg_pages(d)
+    except W.Bad:
+        return
+    for flags in (0, 2):
+        hdr = b"OggS\x00" + bytes([flags]) + struct.pack("<qIII", 0, 0x5EEDF00D, 0, 0) + b"\x00"
+        crc = W.ogg_crc(hdr)
+        page = hdr[:22] + struct.pack("<I", crc) + hdr[26:]
+        for pg in pages[:5]:
+            yield "ogg-empty-foreign-page@%d flags=%d" % (pg["off"], flags), d[:pg["off"]] + page + d[pg["off"]:]
+        yield "ogg-empty-foreign-page@end flags=%d" % flags, d + page
+
+
 def mp4_inputs(d):
     try:
         atoms = list(W.mp4_flat(W.mp4_atoms(d)))
@@ -69,6 +84,9 @@ def mp4_inputs(d):
         for v in (0, 1, 7, 8, 9, 12, 15, 16, a["size"] - 1, a["size"] + 1, 0x7FFFFFFF, 0xFFFFFFFF):
             yield "mp4-size:%s=%d" % (a["name"].decode("latin-1"), v), put(d, o, 4, v, True)
         if a["path"][:4] == (b"moov", b"udta", b"meta", b"ilst") and len(a["path"]) == 5:
+            # the item cut at every length (its size field; what follows becomes the next "item")
+            for k in range(8, min(a["size"], 160)):
+                yield "mp4-item-size:%s=%d" % (a["name"].decode("latin-1"), k), put(d, o, 4, k, True)
             # children of an ilst item: data / name / mean
             p = o + a["hdr"]
             end = o + a["size"]
@@ -380,7 +398,9 @@ def family_of(name):
 def structured(name, d):
     fam = family_of(name)
     gens = [head_sweep(d), truncations(d)]
-    if fam == "ogg": gens.append(ogg_inputs(d))
+    if fam == "ogg":
+        gens.append(ogg_inputs(d))
+        gens.append(ogg_empty_foreign_pages(d))
     if fam == "mp4":
         gens.append(mp4_inputs(d))
         gens.append(mp4_short_tables(d))
